@@ -49,10 +49,11 @@ type Cfg struct {
 	OutCap  int     `json:"outcap,omitempty"`  // v1: capacity of the user supplied output channel
 	FbCap   int     `json:"fbcap,omitempty"`   // v1: capacity of the user supplied feedback channel
 	Tail    int64   `json:"tail,omitempty"`    // join: producer pause before closing (units)
+	LazyAcc bool    `json:"lazyacc,omitempty"` // accessors (Output, Err) are first called by the consumers themselves, concurrently, not by the creator
 	NoErr   bool    `json:"noerr,omitempty"`   // nobody reads Err()
 	UserCtx bool    `json:"userctx,omitempty"` // v1: Opts.Ctx is a user-defined Context implementation (not one made by package context)
 
-	Deep       int  `json:"deep,omitempty"`  // history-keyed (no merging by state) exploration cut at this depth: sound against hidden loop-carried locals
+	Deep       int  `json:"deep,omitempty"`       // history-keyed (no merging by state) exploration cut at this depth: sound against hidden loop-carried locals
 	Cross      int  `json:"cross,omitempty"`      // key-mode cross-check: depth of the history-keyed run
 	NoFallback bool `json:"nofallback,omitempty"` // no iterative preemption bounding after an unfinished unbounded run
 	KeyHistory bool `json:"keyhistory,omitempty"`
